@@ -4,7 +4,7 @@ import itertools
 
 from ..program import AnalysisError, walk_local, dotted
 from ..analysis import Spec, src, const_value
-from ..rules import (GWF, EXC, mpt, need_func, stores_to, raise_class,
+from ..rules import (string_template, GWF, EXC, mpt, need_func, stores_to, raise_class,
                      parent_map, kw, is_const, eval_atom, UNKNOWN)
 from . import common, gitcmds
 from .c07 import _explore
@@ -203,8 +203,15 @@ def refspecs(prog, an, rep):
     joins = [x for x in walk_local(g.node, include_root=False)
              if isinstance(x, ast.Call) and isinstance(x.func, ast.Attribute)
              and x.func.attr == 'join']
-    ok = len(joins) == 1 and "'{0}'" in src(joins[0]) and \
-        '.name' in src(joins[0])
+    ok = False
+    if len(joins) == 1 and joins[0].args and isinstance(
+            joins[0].args[0], (ast.GeneratorExp, ast.ListComp)):
+        comp = joins[0].args[0]
+        t = string_template(comp.elt)
+        # each element is '<name>' (quoted), no +/: prefix, no filter
+        ok = t is not None and t[0] == "'{}'" and len(t[1]) == 1 and \
+            src(t[1][0]) == src(comp.generators[0].target) + '.name' and \
+            not comp.generators[0].ifs and len(comp.generators) == 1
     rep.check(ok, R, g.qname + ': refspecs are quoted branch names',
               g.where(), 'git_utils.push builds refspecs as %s' %
               [src(j) for j in joins])
